@@ -1603,3 +1603,67 @@ func (an *SizeAn) opaqueLocal(fr *SzFrame, id *ast.Ident) bool {
 	})
 	return !returned
 }
+
+// ScaleLoop exposes the loop scaling for callers that evaluate a loop body themselves.
+func ScaleLoop(d Lin, K string) Lin { return scaleLoop(d, K) }
+
+// BindRecvStruct binds the receiver of the frame's method to a struct literal evaluated in frame in.
+func (fr *SzFrame) BindRecvStruct(lit *ast.CompositeLit, in *SzFrame) {
+	if ro := RecvObj(fr.Fn); ro != nil {
+		fr.env[ro] = &szBinding{sym: in.StructSym(lit)}
+	}
+}
+
+// BindParamClosure binds parameter i to an expression of another frame (call by name).
+func (fr *SzFrame) BindParamClosure(i int, e ast.Expr, in *SzFrame) {
+	if po := ParamObj(fr.Fn, i); po != nil {
+		fr.BindClosure(po, e, in)
+	}
+}
+
+// BindRangeVars binds the value variables of all range statements enclosing n (inside the frame's function).
+func (fr *SzFrame) BindRangeVars(n ast.Node) (keys []string) {
+	for _, a := range PathTo(fr.Fn.Decl.Body, n) {
+		if rs, ok := a.(*ast.RangeStmt); ok {
+			s := fr.SymOf(rs.X)
+			K := s.Key
+			if s.Unk != "" || K == "" {
+				K = "?" + types.ExprString(rs.X)
+			}
+			if id, isId := rs.Value.(*ast.Ident); isId && id.Name != "_" {
+				fr.BindSym(fr.Fn.Pkg.TypesInfo.ObjectOf(id), &Sym{Key: K, Elem: true})
+			}
+			keys = append(keys, K)
+		}
+	}
+	return keys
+}
+
+// EnclosingConds evaluates the conditions of all if statements enclosing n: known=false if any is undecided,
+// val=false (known) as soon as one is known to exclude n.
+func (fr *SzFrame) EnclosingConds(st *SzState, n ast.Node) (val, known bool) {
+	val, known = true, true
+	path := PathTo(fr.Fn.Decl.Body, n)
+	for i, a := range path {
+		ifs, ok := a.(*ast.IfStmt)
+		if !ok || i+1 >= len(path) {
+			continue
+		}
+		v, k := fr.Cond(st, ifs.Cond)
+		inThen := path[i+1] == ast.Node(ifs.Body)
+		if !inThen && path[i+1] == ast.Node(ifs.Cond) {
+			continue
+		}
+		if !k {
+			known = false
+			continue
+		}
+		if v != inThen {
+			return false, true
+		}
+	}
+	return val, known
+}
+
+// ExecStmt runs one statement of the frame's function on st (for callers that walk a body themselves).
+func (fr *SzFrame) ExecStmt(st *SzState, s ast.Stmt) *SzState { return fr.stmt(st, s, false) }
